@@ -215,7 +215,7 @@ class DatasetSpec(object):
             # Kilosort 2 ships dense templates plus a trivial column table under this (other) name; phylib ignores it
             np.save(d / 'templates_ind.npy', np.tile(np.arange(self.templates.shape[2]), (self.templates.shape[0], 1)).astype(np.float64))
         for fn, text in self.tsv.items():
-            with open(d / fn, 'w', newline='') as f:
+            with open(d / fn, 'w', newline='', encoding='utf-8') as f:
                 f.write(text)
         for fn, data in self.extra_files.items():
             with open(d / fn, 'wb') as f:
@@ -229,10 +229,12 @@ class DatasetSpec(object):
                 f.write('dat_path = %r\n' % dat_paths[0])
             else:
                 f.write('dat_path = %r\n' % dat_paths)
-            f.write('n_channels_dat = %d\n' % self.n_channels_dat)
+            # (parameter names are case-insensitive; some exporters write them in capitals, with spaces before the '=')
+            nm = (lambda k_: k_.upper() + '  ') if self.notes.get('params_style') == 'upper' else (lambda k_: k_)
+            f.write('%s = %d\n' % (nm('n_channels_dat'), self.n_channels_dat))
             f.write('dtype = %r\n' % raw_dtype.name)
-            f.write('offset = %d\n' % self.raw_offset)
-            f.write('sample_rate = %r\n' % float(self.sample_rate))
+            f.write('%s = %d\n' % (nm('offset'), self.raw_offset))
+            f.write('%s = %r\n' % (nm('sample_rate'), float(self.sample_rate)))
             f.write('hp_filtered = %r\n' % bool(self.hp_filtered))
             if self.notes.get('template_scaling'):
                 f.write('template_scaling = %r\n' % float(self.notes['template_scaling']))
